@@ -949,6 +949,23 @@ struct Recorder
     }
 };
 
+// the context for visitors the library default-constructs (visit<Visitor>(view))
+inline Ctx*& current_ctx()
+{
+    static Ctx* c = nullptr;
+    return c;
+}
+inline long long& current_stop_at()
+{
+    static long long s = -1;
+    return s;
+}
+template<class TagId>
+struct AutoRecorder : Recorder<TagId>
+{
+    AutoRecorder() : Recorder<TagId>{current_ctx(), current_stop_at(), true} {}
+};
+
 // ------------------------------------------------------------ cursor walk
 struct ScriptState
 {
@@ -1796,6 +1813,31 @@ void message_op(Ctx& cx, const SchemaShape& sh)
     case M_VISIT_FULL:
     {
         Recorder<TagId> r{&cx, rq.stop_at, true};
+        if(rq.arg & 2)
+        {
+            // the overload without a cursor (it makes its own); the visitor passed as an lvalue
+            CMV cm{const_cast<const ByteT*>(p), rq.n};
+            sbepp::visit(cm, r);
+            rs.bits = (u64)r.ticks;
+            break;
+        }
+        if(rq.arg & 4)
+        {
+            // visit<Visitor>(view): the visitor is default-constructed by the library and handed back
+            current_ctx() = &cx;
+            current_stop_at() = rq.stop_at;
+            auto r2 = sbepp::visit<AutoRecorder<TagId>>(m);
+            rs.bits = (u64)r2.ticks;
+            break;
+        }
+        if(rq.arg & 8)
+        {
+            // visit_children(view, visitor) without a cursor, visitor as an rvalue
+            CMV cm{const_cast<const ByteT*>(p), rq.n};
+            auto&& r3 = sbepp::visit_children(cm, Recorder<TagId>{&cx, rq.stop_at, true});
+            rs.bits = (u64)r3.ticks;
+            break;
+        }
         if(rq.arg & 1)
         {
             // through the mutable view with a mutable cursor
